@@ -257,9 +257,7 @@ def _rate_paths(model, n, vec, limit, use_t, per_path):
     """explore rate() on n teams of symbolic size; per_path(ctx, info) emits records for one path"""
     from .. import extract, game, teams as T
     from ..symrt import KFLOAT, KINT, Ctx, call, explore
-    tr = T.FoldLoops()
-    S = extract.Scratch(model, transforms={extract.MODEL_FILES[model]: (tr,)})
-    S.ns.update(T.REBINDS)
+    S = T.scratch(model)
     tmf = game.stub_tm_real(S)
     game.stub_phi_real(S)
     ctx = Ctx("R", feas_timeout_ms=300)
